@@ -360,7 +360,12 @@ func injectFile(operations []*HTTPOperation, file graphql.Upload, paths []string
 			parts = parts[1:]
 		}
 
-		if parts[0] != "variables" {
+		// the index has to refer to one of the operations
+		if idx < 0 || idx >= len(operations) {
+			return fmt.Errorf("operation index %d out of bound %d", idx, len(operations))
+		}
+
+		if len(parts) == 0 || parts[0] != "variables" {
 			return errors.New("file locator doesn't have variables in it: " + path)
 		}
 
@@ -369,49 +374,53 @@ func injectFile(operations []*HTTPOperation, file graphql.Upload, paths []string
 			return errors.New("invalid number of parts in path: " + path)
 		}
 
-		variables := operations[idx].Variables
-
-		// step through the path to find the file variable
+		// step through the path to find the file variable. Every part but the last has to lead to
+		// an object or a list and the last one has to lead to the null that the file replaces.
+		var container interface{} = operations[idx].Variables
 		for i := 1; i < len(parts); i++ {
-			val, ok := variables[parts[i]]
-			if !ok {
-				return fmt.Errorf("key not found in variables: %s", parts[i])
-			}
-			switch v := val.(type) {
-			// if the path part is a map, then keep stepping through it
-			case map[string]interface{}:
-				variables = v
-			// if we hit nil, then we have found the variable to replace with the file and have hit the end of parts
-			case nil:
-				variables[parts[i]] = file
-			// if we find a list then find the the variable to replace at the parts index (supports: [Upload!]!)
-			case []interface{}:
-				// make sure the path contains another part before looking for an index
-				if i+1 >= len(parts) {
-					return fmt.Errorf("invalid number of parts in path: " + path)
-				}
+			part := parts[i]
 
-				// the next part in the path must be an index (ex: the "2" in: variables.input.files.2)
-				index, err := strconv.Atoi(parts[i+1])
+			var val interface{}
+			var set func(interface{})
+			switch c := container.(type) {
+			// if we are in an object the part is the name of one of its keys
+			case map[string]interface{}:
+				v, ok := c[part]
+				if !ok {
+					return fmt.Errorf("key not found in variables: %s", part)
+				}
+				val = v
+				set = func(value interface{}) { c[part] = value }
+			// if we are in a list the part must be an index (ex: the "2" in: variables.input.files.2)
+			case []interface{}:
+				index, err := strconv.Atoi(part)
 				if err != nil {
 					return fmt.Errorf("expected numeric index: " + err.Error())
 				}
-
 				// index might not be within the bounds
-				if index >= len(v) {
-					return fmt.Errorf("file index %d out of bound %d", index, len(v))
+				if index < 0 || index >= len(c) {
+					return fmt.Errorf("file index %d out of bound %d", index, len(c))
 				}
-				fileVal := v[index]
-				if fileVal != nil {
-					return fmt.Errorf("expected nil value, got %v", fileVal)
-				}
-				v[index] = file
-
-				// skip the final iteration through parts (skips the index definition, ex: the "2" in: variables.input.files.2)
-				i++
+				val = c[index]
+				set = func(value interface{}) { c[index] = value }
 			default:
-				return fmt.Errorf("expected nil value, got %v", v) // possibly duplicate path or path to non-null variable
+				return fmt.Errorf("expected nil value, got %v", c) // possibly duplicate path or path to non-null variable
 			}
+
+			// every part before the last one has to lead somewhere
+			if i < len(parts)-1 {
+				if val == nil {
+					return fmt.Errorf("invalid number of parts in path: " + path)
+				}
+				container = val
+				continue
+			}
+
+			// we have found the variable to replace with the file
+			if val != nil {
+				return fmt.Errorf("expected nil value, got %v", val) // possibly duplicate path or path to non-null variable
+			}
+			set(file)
 		}
 	}
 	return nil
